@@ -1,5 +1,5 @@
 From Coq Require Import Reals ZArith List String Bool.
-From OV Require Import Ops RInst XR Gen.Paraxial Model.Paraxial Spec.S_ABCD Lemmas.L_Paraxial Lemmas.L_Paraxial2 Lemmas.L_Paraxial3.
+From OV Require Import Ops RInst XR Gen.Paraxial Model.Paraxial Spec.S_ABCD Lemmas.L_Paraxial Lemmas.L_Paraxial2 Lemmas.L_Paraxial3 Gen.ParaxLaunch Lemmas.L_ParaxLaunch.
 Local Open Scope R_scope.
 Import ListNotations.
 
@@ -232,3 +232,14 @@ Theorem C04_EPL_classical :
        EPL pss = Fin ((md M * e + mb M) / (mc M * e + ma M) - d).
 Proof. exact EPL_classical. Qed.
 Print Assumptions C04_EPL_classical.
+
+(** the launch of the marginal ray is the one REGENERATED from Paraxial.marginal_ray (Gen/ParaxLaunch.v) *)
+Theorem C04_marginal_ray_launch_regenerated :
+  forall (obj s1 : psurf ROps) (rest : list (psurf ROps)) (ap : aptype) (v w : R),
+       let ss := obj :: s1 :: rest in
+       marginal_ray ss ap v =
+       (let '(ya, ua, z0, _) :=
+            k_px_marginal_launch ROps (EPD ss ap v) (map (p_z (O:=ROps)) ss) (isinf_ (p_z obj)) (p_z obj) (EPL ss) w in
+        tg ss ya ua z0 false 0).
+Proof. exact (marginal_ray_launch_regenerated (O:=ROps)). Qed.
+Print Assumptions C04_marginal_ray_launch_regenerated.
